@@ -61,7 +61,10 @@ def run_case(tape, tier):
     for _ in range(tape.draw("n_read_steps", 3)):
         read_steps[tape.draw("read_ix", 8 * n + 8)] = tape.pick("j_read", [0.3 * T, 2.5 * T, 10.0])
     real_late = tape.flag("real_set_after_construction", 1, 4)
-    script = dict(real_late=real_late, tock_c=tock_c, tock_run=tock_run if change else None, gap=gap, j0=j0, cycles=cyc, sleeps=sleeps,
+    # history: the same Doist already paced a short real-time run to completion and sat idle since (the gap and the backward
+    # step before the run then fall between the two runs)
+    earlier = 2 + tape.draw("earlier_cycles", 3) if tape.flag("earlier_run", 1, 4) else 0
+    script = dict(earlier_run=earlier, real_late=real_late, tock_c=tock_c, tock_run=tock_run if change else None, gap=gap, j0=j0, cycles=cyc, sleeps=sleeps,
                   read_steps=sorted(read_steps.items()))
 
     clock = sched.SimClock()
@@ -70,10 +73,16 @@ def run_case(tape, tier):
     over_by_cycle = {}
     cur = [0]
 
+    prior = [False]
+
     def on_sleep(c, d, i):
         # a real sleep never returns in less than some quantum; without it a remaining time below
         # the float resolution of the clock would never elapse
         quantum = max(0.0, 1e-7 - max(0.0, d))
+        if prior[0]:
+            if i > 5000:
+                raise _Stuck()
+            return quantum
         over_by_cycle[cur[0]] = quantum   # only the last sleep of a wait can overshoot the deadline
         if i >= len(sleeps):
             if i > 5000:
@@ -134,6 +143,19 @@ def run_case(tape, tier):
                 doist.real = True
             else:
                 doist = doing.Doist(tock=tock_c, real=True, doers=[Pacer()])
+            if earlier:
+                done_pre = [0]
+
+                class Pre(doing.Doer):
+                    def recur(s, tyme):
+                        done_pre[0] += 1
+                        return done_pre[0] >= earlier
+                prior[0] = True
+                doist.do(doers=[Pre()])
+                prior[0] = False
+                clock.sleeps = 0
+                doist.doers = [Pacer()]
+                res.faults["earlier_real_time_run_on_same_doist"] += 1
             clock.true += gap
             if j0:
                 clock.offset -= j0
